@@ -215,11 +215,12 @@ def spot_check(prop, sx_cases, model_lines, rng, n, modfile):
 
 
 # ------------------------------------------------------------------ implementation side
-class _Timeout(Exception):
+class _Timeout(BaseException):   # not an Exception: a module's `except Exception` must not swallow the per-case alarm
     pass
 
 
 def _alarm(signum, frame):
+    signal.alarm(5)   # re-arm: if the alarm is swallowed somewhere, it fires again
     raise _Timeout()
 
 
